@@ -2026,6 +2026,28 @@ fn wire_tags(rec: &mut Recorder, args: &Args) {
         0, 1, 2, 15, 16, 17, 127, 128, 2047, 2048, 16383, 16384, 18999, 19000, 19001, 19500, 19999, 20000, 262143, 262144, (1 << 28) - 1,
         1 << 28, (1 << 29) - 2, (1 << 29) - 1, 1 << 29, (1 << 29) + 1, (1 << 32) - 1,
     ];
+    // every power of two +-1 (the tag varint grows a byte at field numbers 2^4, 2^11, 2^18, 2^25), and
+    // seeded field numbers of every bit length in between
+    let mut nums = nums;
+    for k in 0..=32u32 {
+        let p = 1u64 << k;
+        for v in [p.wrapping_sub(1), p, p + 1] {
+            if v <= (1 << 32) - 1 && !nums.contains(&v) {
+                nums.push(v);
+            }
+        }
+    }
+    {
+        let mut rng = Rng::for_case(args.seed, 0x7a6, 0);
+        for k in 1..=29u32 {
+            for _ in 0..2 {
+                let v = (1u64 << (k - 1)) + rng.below(1u64 << (k - 1));
+                if !nums.contains(&v) {
+                    nums.push(v);
+                }
+            }
+        }
+    }
     for num in nums.iter().cloned() {
         for wt in 0..8u32 {
             put(rec, |rec| {
